@@ -341,7 +341,7 @@ Proof. exact float_list_example. Qed.
      C10_timetag_skip_fraction - the value comes from the hexadecimal float, exactly;
    - so the printed text is a TOKEN of the whole-function recognisers
      (C10_timetag_tokof_clock: whole seconds with a clock time other than 00:00:00;
-     C10_timetag_tokof_fraction), and a text of such tokens and the other proved
+     C10_timetag_tokof_fraction; C10_timetag_tokof_immediately), and a text of such tokens and the other proved
      tokens, with any white space between them, is counted and scanned back
      (C10_linebreak_transparent; C10_timetag_in_list).
    NOT proved: a date standing alone (midnight) as a token of `lang` (it is one only
@@ -409,6 +409,10 @@ Theorem C10_timetag_tokof_fraction : forall (dec2f dec2d : list Z -> Z) o secs s
   lossless o = true -> 0 <= secs < 2 ^ 32 -> frac_fits_float sf -> secs * 2 ^ 32 + sf <> 1 ->
   tokof dec2f dec2d (VTm (secs * 2 ^ 32 + sf)) (print_timetag o (secs * 2 ^ 32 + sf)).
 Proof. exact timetag_tokof_fraction. Qed.
+
+Theorem C10_timetag_tokof_immediately : forall (dec2f dec2d : list Z -> Z) o,
+  tokof dec2f dec2d (VTm 1) (print_timetag o 1).
+Proof. exact timetag_tokof_immediately. Qed.
 
 (* 1 <line break> 2016-11-14 17:26 <tab> 2016-11-14 17:26:30.38 (...+0x1.8p-2s) true *)
 Theorem C10_timetag_in_list : forall (dec2f dec2d : list Z -> Z),
